@@ -33,6 +33,7 @@ from gemseo.core.mdo_functions.mdo_function import MDOFunction
 from gemseo.core.mdo_functions.mdo_function import OutputType
 from gemseo.core.mdo_functions.mdo_function import WrappedFunctionType
 from gemseo.core.serializable import Serializable
+from gemseo.utils.compatibility.scipy import sparse_classes
 from gemseo.utils.derivatives.factory import GradientApproximatorFactory
 
 if TYPE_CHECKING:
@@ -266,8 +267,12 @@ class ProblemFunction(MDOFunction, Serializable):
                 raise MaxIterReachedException
 
             jacobian = self._compute_jacobian(input_value).real
+            # A sparse Jacobian is not supported by the NumPy ufuncs: check its data.
             self.check_function_output_includes_nan(
-                jacobian, self.stop_if_nan, name, input_value
+                jacobian.data if isinstance(jacobian, sparse_classes) else jacobian,
+                self.stop_if_nan,
+                name,
+                input_value,
             )
             if self.__store_jacobian:
                 database.store(hashed_xu, {name: jacobian})
